@@ -303,7 +303,8 @@ def gen_world(d):
     for c in codes[1:]:
         cid = c['id']
         if d.chance(25):
-            p[cid + '-CodePath'] = d.choice([cid + 'code', 'other/' + cid, 'asm/' + cid, 'asm' + cid, 'a'])
+            p[cid + '-CodePath'] = d.choice([cid + 'code', 'other/' + cid, 'asm/' + cid, 'asm' + cid, 'a',
+                                             '#IF({base}==16)(%s-hex,%s-dec)' % (cid, cid)])      # [Paths] values may contain skool macros
         if d.chance(20):
             p[cid + '-Index'] = d.choice([cid + '.html', 'other/' + cid + '/index.html'])
         if d.chance(20):
@@ -813,6 +814,12 @@ def render_ref(d, w, tg):
     return '\n'.join(out) + '\n', dash_c
 
 
+def _eff_path(path, hexmode):
+    """The value of a [Paths] parameter after macro expansion (only the one macro form the generator writes)."""
+    m = re.fullmatch(r'#IF\(\{base\}==16\)\(([^,]*),([^)]*)\)', path)
+    return (m.group(1) if hexmode else m.group(2)) if m else path
+
+
 def build_model(w):
     """Where the documentation says each entry is listed, and with which ids."""
     o = w['opt']
@@ -831,7 +838,7 @@ def build_model(w):
                                    'entry_addrs': [e['addr'] for e in live_entries(c)],
                                    'addrs': [i['addr'] for e in live_entries(c) for i in e['instrs']]})
         else:
-            cdir = p.get('CodePath', 'asm') if c['main'] else p.get(cid + '-CodePath', cid)
+            cdir = p.get('CodePath', 'asm') if c['main'] else _eff_path(p.get(cid + '-CodePath', cid), hexmode)
             for e in live_entries(c):
                 model['pages'].append({'kind': kind, 'code': cid, 'single': False,
                                        'file': pjoin(cdir, codefile(o['codefiles'], e['addr'], hexmode)),
